@@ -298,6 +298,10 @@ func (fx *FnExec) execCall(in ssa.Instruction, c *ssa.CallCommon, res ssa.Value)
 	for _, a := range c.Args {
 		args = append(args, fx.val(a))
 	}
+	fx.execCallArgs(in, c, res, args)
+}
+
+func (fx *FnExec) execCallArgs(in ssa.Instruction, c *ssa.CallCommon, res ssa.Value, args []Val) {
 	setRes := func(v Val) {
 		if res != nil {
 			v.T = res.Type()
@@ -343,6 +347,7 @@ func (fx *FnExec) loadedHavoc(t types.Type) string {
 }
 
 func (fx *FnExec) callHavoc(in ssa.Instruction, c *ssa.CallCommon, args []Val, rtype types.Type) Val {
+	fx.frameCheckCall(in, c, nil, nil)
 	mods, _ := fx.W.instrMods(fx, in)
 	for _, m := range mods {
 		fx.havocHeap(m)
@@ -356,6 +361,31 @@ func (fx *FnExec) callHavoc(in ssa.Instruction, c *ssa.CallCommon, args []Val, r
 		switch full {
 		case "errors.New", "fmt.Errorf":
 			fx.assume("(distinct " + r.S + " nil-iface)")
+		case "(*sync.Pool).Get":
+			// typed by inference over New and all Put sites; the object handed out is owned by the
+			// caller alone (pool ownership, DESIGN.md F5/F9): modelled as a fresh reference whose
+			// fields are arbitrary.
+			if pi := fx.W.poolOf(c.Args[0]); pi != nil && pi.elem != nil && pi.newFn != nil {
+				fx.assume(fmt.Sprintf("(= (i.tag %s) %d)", r.S, fx.W.typeTag(pi.elem)))
+				switch pi.elem.Underlying().(type) {
+				case *types.Pointer, *types.Map:
+					fx.assume("(> (i.pay " + r.S + ") " + fx.allocBase() + ")")
+					for _, k := range fx.fresh {
+						fx.assume("(distinct (i.pay " + r.S + ") " + k + ")")
+					}
+					fx.fresh = append(fx.fresh, "(i.pay "+r.S+")")
+				case *types.Slice:
+					// payload is boxed; freshness of the backing array
+					u := fx.unbox(pi.elem, "(i.pay "+r.S+")")
+					fx.assume(fx.typeInvariant(pi.elem, u))
+					fx.assume("(> (s.arr " + u + ") " + fx.allocBase() + ")")
+					for _, k := range fx.fresh {
+						fx.assume("(distinct (s.arr " + u + ") " + k + ")")
+					}
+					fx.fresh = append(fx.fresh, "(s.arr "+u+")")
+				}
+				fx.usedAssumption("sync.Pool.Get returns an object of the pool's element type owned exclusively by the caller (arbitrary field values)")
+			}
 		}
 		return r
 	}
@@ -387,6 +417,7 @@ func (fx *FnExec) callWithContract(in ssa.Instruction, c *ssa.CallCommon, ct *Co
 		o.Props = r.Props
 	}
 	// effects
+	fx.frameCheckCall(in, c, ct, env)
 	if ct.HasModifies {
 		if err := fx.applyModifies(ct, env); err != nil {
 			fx.outside = append(fx.outside, fmt.Sprintf("call %s: %v", ct.Name, err))
@@ -492,6 +523,7 @@ func (fx *FnExec) execBuiltin(in ssa.Instruction, b *ssa.Builtin, c *ssa.CallCom
 		}
 		st := c.Args[0].Type().Underlying().(*types.Slice)
 		name, sort := fx.elemHeap(st.Elem())
+		fx.frameCheck(in, name, "(s.arr "+dst+")", "copy into slice")
 		h := fx.heapArr(name, sort)
 		na := fx.havoc("copied", "(Array Int "+fx.sortOf(st.Elem())+")")
 		fx.setHeap(name, sort, "(store "+h+" (s.arr "+dst+") "+na+")")
@@ -503,9 +535,8 @@ func (fx *FnExec) execBuiltin(in ssa.Instruction, b *ssa.Builtin, c *ssa.CallCom
 			fx.onStore(fx, in, &Place{Kind: PCell, Ref: m, Elem: mt}, Val{})
 		}
 		// delete on a nil map is a no-op
-		save := fx.cur.heap
+		fx.frameCheckMap(in, mt, m)
 		fx.mapDelete(mt, m, k)
-		_ = save
 	case "clear":
 		ms, _ := fx.W.instrMods(fx, in)
 		for _, m := range ms {
@@ -582,6 +613,12 @@ func (fx *FnExec) execAppend(in ssa.Instruction, c *ssa.CallCommon, args []Val, 
 		fx.onStore(fx, in, &Place{Kind: PElem, Arr: "(s.arr " + s + ")", Idx: "(+ (s.off " + s + ") (s.len " + s + "))", Elem: st.Elem()}, Val{})
 		fx.cur.pc = save
 	}
+	{
+		save := fx.cur.pc
+		fx.cur.pc = and(save, fits, "(> "+tlen+" 0)")
+		fx.frameCheck(in, name, "(s.arr "+s+")", "append in place")
+		fx.cur.pc = save
+	}
 	var content string
 	if known {
 		content = "(select " + h + " (s.arr " + s + "))"
@@ -652,4 +689,178 @@ func (fx *FnExec) fnSpecResult(f *ssa.Function, args []Val, rtype types.Type) Va
 		return Val{T: rtype, Tup: vs}
 	}
 	return mk(0, rtype)
+}
+
+func (fx *FnExec) usedAssumption(a string) {
+	for _, n := range fx.notes {
+		if n == "assume:"+a {
+			return
+		}
+	}
+	fx.notes = append(fx.notes, "assume:"+a)
+}
+
+// ---------------------------------------------------------------- frame checking (F4)
+
+// initFrame evaluates the modifies clause of the function under verification at entry.
+func (fx *FnExec) initFrame() {
+	if fx.C == nil || !fx.C.HasModifies || fx.C.Assumed {
+		return
+	}
+	fx.frameOK = true
+	env := &evalEnv{fx: fx, heap: fx.cur.heap, oldHeap: fx.cur.heap}
+	for _, m := range fx.C.Modifies {
+		ts, err := fx.modTargets(m, env)
+		if err != nil {
+			fx.outside = append(fx.outside, "modifies "+m.Text+": "+err.Error())
+			continue
+		}
+		fx.frame = append(fx.frame, ts...)
+	}
+}
+
+// modTargets resolves one modifies expression to (heap, object ref) pairs.
+func (fx *FnExec) modTargets(m *CExpr, env *evalEnv) ([]modTarget, error) {
+	switch x := m.ast.(type) {
+	case *ast.SelectorExpr:
+		base, err := fx.evalC(x.X, env)
+		if err != nil {
+			return nil, err
+		}
+		el, isPtr := derefType(base.T)
+		st, ok := el.Underlying().(*types.Struct)
+		if !ok || !isPtr {
+			return nil, fmt.Errorf("not a field of a pointer")
+		}
+		for i := 0; i < st.NumFields(); i++ {
+			if st.Field(i).Name() == x.Sel.Name {
+				name, sort := fx.fieldHeap(fx.W.structName(el), st, i)
+				return []modTarget{{heap: name, sort: sort, ref: base.S}}, nil
+			}
+		}
+		return nil, fmt.Errorf("no such field")
+	case *ast.CallExpr:
+		id, _ := x.Fun.(*ast.Ident)
+		if id == nil || len(x.Args) != 1 {
+			return nil, fmt.Errorf("unsupported")
+		}
+		v, err := fx.evalC(x.Args[0], env)
+		if err != nil {
+			return nil, err
+		}
+		switch id.Name {
+		case "elems":
+			st, ok := v.T.Underlying().(*types.Slice)
+			if !ok {
+				return nil, fmt.Errorf("not a slice")
+			}
+			name, sort := fx.elemHeap(st.Elem())
+			return []modTarget{{heap: name, sort: sort, ref: "(s.arr " + v.S + ")"}}, nil
+		case "entries":
+			mt, ok := v.T.Underlying().(*types.Map)
+			if !ok {
+				return nil, fmt.Errorf("not a map")
+			}
+			a, b, c := fx.W.mapHeapNames(mt)
+			return []modTarget{{heap: a, ref: v.S}, {heap: b, ref: v.S}, {heap: c, ref: v.S}}, nil
+		}
+	}
+	return nil, fmt.Errorf("unsupported form")
+}
+
+// frameCheck: a write to object `ref` in heap `heap` must be inside the declared frame or hit an
+// object allocated by this activation.
+func (fx *FnExec) frameCheck(in ssa.Instruction, heap, ref, what string) {
+	if !fx.frameOK {
+		return
+	}
+	alts := []string{"(> " + ref + " " + fx.allocBase() + ")"}
+	for _, t := range fx.frame {
+		if t.heap == heap {
+			alts = append(alts, eq(ref, t.ref))
+		}
+	}
+	o := fx.oblige("frame", or(alts...), in, "write ("+what+") to "+heap+" stays inside the modifies clause or hits a fresh object")
+	o.Props = fx.C.Props
+}
+
+func (fx *FnExec) frameCheckPlace(in ssa.Instruction, pl *Place) {
+	if !fx.frameOK {
+		return
+	}
+	// root object of the place
+	root := pl
+	for root.Kind == PField && root.Base != nil {
+		root = root.Base
+	}
+	switch root.Kind {
+	case PField:
+		name, _ := fx.fieldHeap(root.SName, root.Struct, root.Field)
+		fx.frameCheck(in, name, root.Ref, "store to field "+root.Struct.Field(root.Field).Name())
+	case PElem:
+		name, _ := fx.elemHeap(root.Elem)
+		fx.frameCheck(in, name, root.Arr, "store to element")
+	case PCell:
+		if st, ok := root.Elem.Underlying().(*types.Struct); ok && st.NumFields() > 0 {
+			si := fx.W.structInfoOf(root.Elem)
+			for i := 0; i < st.NumFields(); i++ {
+				name, _ := fx.fieldHeap(si.name, st, i)
+				fx.frameCheck(in, name, root.Ref, "store of whole struct")
+			}
+			return
+		}
+		name, _ := fx.cellHeap(root.Elem)
+		fx.frameCheck(in, name, root.Ref, "store through pointer")
+	case PArr:
+		name, _ := fx.elemHeap(root.Elem.Underlying().(*types.Array).Elem())
+		fx.frameCheck(in, name, root.Arr, "store of whole array")
+	default:
+		o := fx.oblige("frame", "false", in, "store through an untracked interior pointer")
+		o.Props = fx.C.Props
+	}
+}
+
+func (fx *FnExec) frameCheckMap(in ssa.Instruction, mt *types.Map, m string) {
+	if !fx.frameOK {
+		return
+	}
+	a, _, _ := fx.W.mapHeapNames(mt)
+	fx.frameCheck(in, a, m, "map update/delete")
+}
+
+// frameCheckCall: the callee's effects must lie inside the caller's frame.
+func (fx *FnExec) frameCheckCall(in ssa.Instruction, c *ssa.CallCommon, ct *Contract, env *evalEnv) {
+	if !fx.frameOK {
+		return
+	}
+	if ct != nil && ct.HasModifies {
+		for _, m := range ct.Modifies {
+			ts, err := fx.modTargets(m, env)
+			if err != nil {
+				fx.outside = append(fx.outside, "call "+ct.Name+" modifies "+m.Text+": "+err.Error())
+				continue
+			}
+			for _, t := range ts {
+				if strings.HasPrefix(t.heap, "MV_") || strings.HasPrefix(t.heap, "ML_") {
+					continue // checked once through the MD_ heap
+				}
+				fx.frameCheck(in, t.heap, t.ref, "effect of callee "+ct.Name)
+			}
+		}
+		return
+	}
+	// callee without a modifies clause: every heap it may write (outside its own fresh objects)
+	// must be covered — by object identity this cannot be established, so only an empty
+	// summary passes
+	mods, _ := fx.W.instrMods(fx, in)
+	var direct = map[string]bool{}
+	fx.W.directMods(in, true, direct)
+	fx.W.builtinMods(c, true, direct)
+	for _, h := range mods {
+		if direct[h] {
+			continue // the instruction's own writes are checked at the store itself
+		}
+		o := fx.oblige("frame", "false", in, "callee without modifies clause may write "+h)
+		o.Props = fx.C.Props
+	}
 }
